@@ -470,6 +470,8 @@ class OwnBuilder(cc.Builder):
             self.recorded[path] = lentry(path, self.hids)
             return True
         cands = sorted(q for q in set(self.recorded) | self.statics if q != path and os.path.isfile(q))
+        if path in self.force_links.values():
+            cands = []          # the target of a directed link is a plain file with the same content on every write
         if content.startswith(("built ", "volatile ")) and cands and self.rng.random() < self.link_prob:
             os.symlink(_rel(self.rng.choice(cands), path), path)
         else:
